@@ -1,3 +1,1234 @@
 import PyaModel.Spec.TypeVarSpec
+/-!
+# Proofs/C15 — helper lemmas for the type-variable solver
+
+1. normal form: `run` is three independent folds (over the lower bounds, the upper bounds, the
+   constraint lists) — `run_eq`;
+2. the algebraic hypotheses `Laws` / `AnyLaws` and the invariants of the two folds;
+3. `choose` / `removeRedundant`;
+4. the assembled facts about `solve`;
+5. permutation invariance of the specification;
+6. from the decidable check `lawsOn` to `Laws`;
+7. `Any` laws of the shared assignability model `ca`.
+-/
 namespace Pya.C15
+
+theorem isAny_iff {t : Ty} : isAny t = true ↔ t = .any := by cases t <;> simp [isAny]
+theorem isAny_false_iff {t : Ty} : isAny t = false ↔ t ≠ .any := by cases t <;> simp [isAny]
+
+/-! ### 1. normal form of the loop -/
+section NF
+variable (le : Ty → Ty → Bool) (join : Ty → Ty → Ty)
+
+def lowStep (bot : Option Ty) (v : Ty) : Option Ty :=
+  match bot with
+  | none => some v
+  | some b =>
+    if isAny v then some b else if le b v then some v else if le v b then some b else some (join b v)
+
+def upStep (top : Option Ty) (v : Ty) : Option Ty :=
+  match top with
+  | none => some v
+  | some t => if le v t then some v else if le t v then some t else some (join t v)
+
+def optStep (_ : Option (List Ty)) (cs : List Ty) : Option (List Ty) := some cs
+
+theorem step_lower (st : St) (v : Ty) :
+    step le join st (.lower v) = { st with bottom := lowStep le join st.bottom v } := by
+  cases st with
+  | mk b t o =>
+    cases b with
+    | none => simp [step, lowStep]
+    | some b =>
+      simp only [step, lowStep]
+      by_cases h1 : isAny v = true
+      · simp [h1]
+      · by_cases h2 : le b v = true
+        · simp [h1, h2]
+        · by_cases h3 : le v b = true <;> simp [h1, h2, h3]
+
+theorem step_upper (st : St) (v : Ty) :
+    step le join st (.upper v) = { st with top := upStep le join st.top v } := by
+  cases st with
+  | mk b t o =>
+    cases t with
+    | none => simp [step, upStep]
+    | some t =>
+      simp only [step, upStep]
+      by_cases h2 : le v t = true
+      · simp [h2]
+      · by_cases h3 : le t v = true <;> simp [h2, h3]
+
+theorem run_eq (st : St) (bs : List Bound) :
+    run le join st bs =
+      ⟨(lowers bs).foldl (lowStep le join) st.bottom, (uppers bs).foldl (upStep le join) st.top,
+       (oneOfs bs).foldl optStep st.options⟩ := by
+  induction bs generalizing st with
+  | nil => simp [run, lowers, uppers, oneOfs]
+  | cons b bs ih =>
+    have h : run le join st (b :: bs) = run le join (step le join st b) bs := by simp [run]
+    rw [h, ih]
+    cases b with
+    | lower v => simp [step_lower, lowers, uppers, oneOfs]
+    | upper v => simp [step_upper, lowers, uppers, oneOfs]
+    | oneOf cs => simp [step, lowers, uppers, oneOfs, optStep]
+    | or bss => simp [step, lowers, uppers, oneOfs]
+
+/-- the successive values of `bottom` -/
+def lowTrail : Option Ty → List Ty → List Ty
+  | _, [] => []
+  | bot, v :: vs => (lowStep le join bot v).toList ++ lowTrail (lowStep le join bot v) vs
+
+theorem lowTrail_sub (st : St) (bs : List Bound) :
+    ∀ x ∈ lowTrail le join st.bottom (lowers bs), x ∈ trail le join st bs := by
+  induction bs generalizing st with
+  | nil => simp [lowers, lowTrail]
+  | cons b bs ih =>
+    intro x hx
+    cases b with
+    | lower v =>
+      simp only [lowers, lowTrail, List.mem_append] at hx
+      simp only [trail, List.mem_append, step_lower]
+      rcases hx with hx | hx
+      · exact Or.inl (Or.inl hx)
+      · exact Or.inr (by simpa [step_lower] using ih (step le join st (.lower v)) x (by simpa [step_lower] using hx))
+    | upper v =>
+      simp only [lowers] at hx
+      simp only [trail, List.mem_append]
+      exact Or.inr (ih _ x (by simpa [step_upper] using hx))
+    | oneOf cs =>
+      simp only [lowers] at hx
+      simp only [trail, List.mem_append]
+      exact Or.inr (ih _ x (by simpa [step] using hx))
+    | or bss =>
+      simp only [lowers] at hx
+      simp only [trail, List.mem_append]
+      exact Or.inr (ih _ x (by simpa [step] using hx))
+
+theorem optFold_eq (init : Option (List Ty)) (l : List (List Ty)) :
+    l.foldl optStep init = (match l.getLast? with | some c => some c | none => init) := by
+  induction l generalizing init with
+  | nil => simp
+  | cons c l ih =>
+    rw [List.foldl_cons, ih]
+    cases hl : l.getLast? with
+    | none =>
+      have : l = [] := by simpa using hl
+      subst this
+      simp [optStep]
+    | some c' =>
+      have : (c :: l).getLast? = some c' := by
+        rw [List.getLast?_cons]; simp [hl]
+      simp [this]
+
+end NF
+
+/-! ### 2. the algebraic hypotheses and the fold invariants -/
+
+/-- `le` restricted to the carrier `S` is a preorder and `join` a least upper bound that stays
+away from `Any`. (No closure of `S` under `join` is demanded here: the theorems ask for the values
+the solver actually meets — `reach` — to lie in `S`.) -/
+structure Laws (S : Ty → Prop) (le : Ty → Ty → Bool) (join : Ty → Ty → Ty) : Prop where
+  notAny : ∀ a, S a → isAny a = false
+  le_refl : ∀ a, S a → le a a = true
+  le_trans : ∀ a b c, S a → S b → S c → le a b = true → le b c = true → le a c = true
+  join_notAny : ∀ a b, S a → S b → isAny (join a b) = false
+  le_join_left : ∀ a b, S a → S b → le a (join a b) = true
+  le_join_right : ∀ a b, S a → S b → le b (join a b) = true
+  join_le : ∀ a b c, S a → S b → S c → le a c = true → le b c = true → le (join a b) c = true
+
+/-- `Any` is assignable to everything and everything to `Any` (no "exclude Any" mode). -/
+structure AnyLaws (le : Ty → Ty → Bool) : Prop where
+  le_any_left : ∀ b, le .any b = true
+  le_any_right : ∀ a, le a .any = true
+
+/-- a value of the carrier, or the top-level `Any` -/
+def AS (S : Ty → Prop) (v : Ty) : Prop := v = .any ∨ S v
+
+section Inv
+variable {S : Ty → Prop} {le : Ty → Ty → Bool} {join : Ty → Ty → Ty}
+
+theorem AS.of_notAny {v : Ty} (h : AS S v) (hn : isAny v = false) : S v := by
+  rcases h with h | h
+  · subst h; simp [isAny] at hn
+  · exact h
+
+/-- what `bottom = b` means after the lower bounds `L` have been folded -/
+structure InvLow (S : Ty → Prop) (le : Ty → Ty → Bool) (L : List Ty) (b : Ty) : Prop where
+  as : AS S b
+  all : ∀ l ∈ L, AS S l
+  ub : ∀ l ∈ L, le l b = true
+  anyb : b = .any → ∀ l ∈ L, l = .any
+  lub : ∀ c, S c → (∀ l ∈ L, le l c = true) → le b c = true
+  ne : L ≠ []
+
+def InvLowO (S : Ty → Prop) (le : Ty → Ty → Bool) (L : List Ty) : Option Ty → Prop
+  | none => L = []
+  | some b => InvLow S le L b
+
+/-- `l ≤ b ≤ v` for a lower bound `l` that is `Any` or in the carrier -/
+theorem le_trans_as (hL : Laws S le join) (hA : AnyLaws le) {l b v : Ty} (hl : AS S l) (hb : S b)
+    (hv : AS S v) (h1 : le l b = true) (h2 : le b v = true) : le l v = true := by
+  rcases hl with hl | hl
+  · subst hl; exact hA.le_any_left _
+  · rcases hv with hv | hv
+    · subst hv; exact hA.le_any_right _
+    · exact hL.le_trans _ _ _ hl hb hv h1 h2
+
+theorem mem_snoc {α} {x v : α} {L : List α} (h : x ∈ L ++ [v]) : x ∈ L ∨ x = v := by
+  rcases List.mem_append.mp h with h | h
+  · exact Or.inl h
+  · exact Or.inr (by simpa using h)
+
+theorem low_step (hL : Laws S le join) (hA : AnyLaws le) (L : List Ty) (bot : Option Ty) (v : Ty)
+    (hinv : InvLowO S le L bot) (hv : AS S v)
+    (hnew : ∀ x ∈ (lowStep le join bot v).toList, AS S x) :
+    InvLowO S le (L ++ [v]) (lowStep le join bot v) := by
+  cases bot with
+  | none =>
+    simp only [InvLowO] at hinv
+    subst hinv
+    simp only [lowStep, InvLowO, List.nil_append]
+    refine ⟨hv, ?_, ?_, ?_, ?_, by simp⟩
+    · intro l hl
+      have : l = v := by simpa using hl
+      rw [this]; exact hv
+    · intro l hl
+      have : l = v := by simpa using hl
+      subst this
+      rcases hv with h | h
+      · subst h; exact hA.le_any_left _
+      · exact hL.le_refl _ h
+    · intro h l hl
+      have : l = v := by simpa using hl
+      rw [this, h]
+    · intro c _ hc
+      exact hc v (by simp)
+  | some b =>
+    simp only [InvLowO] at hinv
+    obtain ⟨hb, hall, hub, hanyb, hlub, hne⟩ := hinv
+    have hall' : ∀ l ∈ L ++ [v], AS S l := by
+      intro l hl
+      rcases mem_snoc hl with hl | hl
+      · exact hall l hl
+      · rw [hl]; exact hv
+    simp only [lowStep] at hnew ⊢
+    by_cases h1 : isAny v = true
+    · -- the `Any` lower bound is skipped
+      have hva : v = .any := isAny_iff.mp h1
+      simp only [h1, if_true, InvLowO]
+      refine ⟨hb, hall', ?_, ?_, ?_, by simp⟩
+      · intro l hl
+        rcases mem_snoc hl with hl | hl
+        · exact hub l hl
+        · rw [hl, hva]; exact hA.le_any_left _
+      · intro hb' l hl
+        rcases mem_snoc hl with hl | hl
+        · exact hanyb hb' l hl
+        · rw [hl, hva]
+      · intro c hc hcall
+        exact hlub c hc fun l hl => hcall l (List.mem_append.mpr (Or.inl hl))
+    · have h1' : isAny v = false := by simpa using h1
+      have hSv : S v := hv.of_notAny h1'
+      by_cases h2 : le b v = true
+      · -- the new bound is wider: adopt it
+        simp only [h1', h2, if_true, InvLowO]
+        refine ⟨hv, hall', ?_, ?_, ?_, by simp⟩
+        · intro l hl
+          rcases mem_snoc hl with hl | hl
+          · by_cases hba : isAny b = true
+            · rw [hanyb (isAny_iff.mp hba) l hl]; exact hA.le_any_left _
+            · have hSb : S b := hb.of_notAny (by simpa using hba)
+              exact le_trans_as hL hA (hall l hl) hSb hv (hub l hl) h2
+          · rw [hl]; exact hL.le_refl _ hSv
+        · intro hva; rw [hva] at h1'; simp [isAny] at h1'
+        · intro c _ hcall
+          exact hcall v (by simp)
+      · have h2' : le b v = false := by simpa using h2
+        have hbn : isAny b = false := by
+          cases hba : isAny b with
+          | false => rfl
+          | true =>
+            rw [isAny_iff.mp hba, hA.le_any_left] at h2'
+            exact absurd h2' (by simp)
+        have hSb : S b := hb.of_notAny hbn
+        by_cases h3 : le v b = true
+        · -- the new bound is narrower: ignore it
+          simp only [h1', h2', h3, if_true, InvLowO]
+          refine ⟨hb, hall', ?_, ?_, ?_, by simp⟩
+          · intro l hl
+            rcases mem_snoc hl with hl | hl
+            · exact hub l hl
+            · rw [hl]; exact h3
+          · intro hba
+            rw [hba] at hbn; simp [isAny] at hbn
+          · intro c hc hcall
+            exact hlub c hc fun l hl => hcall l (List.mem_append.mpr (Or.inl hl))
+        · -- separate: unite
+          have h3' : le v b = false := by simpa using h3
+          simp only [h1', h2', h3', InvLowO] at hnew ⊢
+          have hj : AS S (join b v) := hnew _ (by simp)
+          have hjn : isAny (join b v) = false := hL.join_notAny _ _ hSb hSv
+          have hSj : S (join b v) := hj.of_notAny hjn
+          refine ⟨hj, hall', ?_, ?_, ?_, by simp⟩
+          · intro l hl
+            rcases mem_snoc hl with hl | hl
+            · exact le_trans_as hL hA (hall l hl) hSb hj (hub l hl) (hL.le_join_left _ _ hSb hSv)
+            · rw [hl]; exact hL.le_join_right _ _ hSb hSv
+          · intro hja
+            rw [hja] at hjn; simp [isAny] at hjn
+          · intro c hc hcall
+            exact hL.join_le _ _ _ hSb hSv hc
+              (hlub c hc fun l hl => hcall l (List.mem_append.mpr (Or.inl hl)))
+              (hcall v (by simp))
+
+theorem low_fold (hL : Laws S le join) (hA : AnyLaws le) (vs : List Ty) :
+    ∀ (L : List Ty) (bot : Option Ty), InvLowO S le L bot → (∀ v ∈ vs, AS S v) →
+      (∀ x ∈ lowTrail le join bot vs, AS S x) →
+      InvLowO S le (L ++ vs) (vs.foldl (lowStep le join) bot) := by
+  induction vs with
+  | nil => intro L bot h _ _; simpa using h
+  | cons v vs ih =>
+    intro L bot hinv hvs htr
+    have h1 := low_step hL hA L bot v hinv (hvs v (by simp))
+      (fun x hx => htr x (by simp [lowTrail, hx]))
+    have h2 := ih (L ++ [v]) (lowStep le join bot v) h1 (fun w hw => hvs w (by simp [hw]))
+      (fun x hx => htr x (by simp [lowTrail, hx]))
+    simpa using h2
+
+/-- what `top = t` means after the upper bounds `U` have been folded, when the upper bounds are
+pairwise comparable members of the carrier: `t` is a least one of them -/
+structure InvTop (le : Ty → Ty → Bool) (U : List Ty) (t : Ty) : Prop where
+  mem : t ∈ U
+  lb : ∀ u ∈ U, le t u = true
+
+def InvTopO (le : Ty → Ty → Bool) (U : List Ty) : Option Ty → Prop
+  | none => U = []
+  | some t => InvTop le U t
+
+theorem up_fold (hL : Laws S le join) (Uall : List Ty) (hS : ∀ u ∈ Uall, S u)
+    (hch : ∀ u ∈ Uall, ∀ v ∈ Uall, le u v = true ∨ le v u = true) (vs : List Ty) :
+    ∀ (U : List Ty) (top : Option Ty), InvTopO le U top → (∀ u ∈ U, u ∈ Uall) → (∀ v ∈ vs, v ∈ Uall) →
+      InvTopO le (U ++ vs) (vs.foldl (upStep le join) top) := by
+  induction vs with
+  | nil => intro U top h _ _; simpa using h
+  | cons v vs ih =>
+    intro U top hinv hU hvs
+    have hv : v ∈ Uall := hvs v (by simp)
+    have hstep : InvTopO le (U ++ [v]) (upStep le join top v) := by
+      cases top with
+      | none =>
+        simp only [InvTopO] at hinv
+        subst hinv
+        simp only [upStep, InvTopO, List.nil_append]
+        exact ⟨by simp, fun u hu => by
+          have : u = v := by simpa using hu
+          rw [this]; exact hL.le_refl _ (hS v hv)⟩
+      | some t =>
+        simp only [InvTopO] at hinv
+        obtain ⟨hmem, hlb⟩ := hinv
+        have ht : t ∈ Uall := hU t hmem
+        simp only [upStep]
+        by_cases h2 : le v t = true
+        · simp only [h2, if_true, InvTopO]
+          refine ⟨by simp, fun u hu => ?_⟩
+          rcases mem_snoc hu with hu | hu
+          · exact hL.le_trans _ _ _ (hS v hv) (hS t ht) (hS u (hU u hu)) h2 (hlb u hu)
+          · rw [hu]; exact hL.le_refl _ (hS v hv)
+        · have h3 : le t v = true := by
+            rcases hch t ht v hv with h | h
+            · exact h
+            · exact absurd h h2
+          have h2' : le v t = false := by simpa using h2
+          simp only [h2', h3, if_true, InvTopO]
+          refine ⟨List.mem_append.mpr (Or.inl hmem), fun u hu => ?_⟩
+          rcases mem_snoc hu with hu | hu
+          · exact hlb u hu
+          · rw [hu]; exact h3
+    have := ih (U ++ [v]) (upStep le join top v) hstep
+      (fun u hu => by
+        rcases mem_snoc hu with hu | hu
+        · exact hU u hu
+        · rw [hu]; exact hv)
+      (fun w hw => hvs w (by simp [hw]))
+    simpa using this
+
+end Inv
+
+/-! ### 3. constraint selection -/
+section Choose
+variable (le : Ty → Ty → Bool)
+
+theorem rrGo_sub (rest : List Ty) : ∀ (kept : List Ty) (x : Ty), x ∈ rrGo le kept rest → x ∈ kept ∨ x ∈ rest := by
+  induction rest with
+  | nil => intro kept x h; simpa [rrGo] using h
+  | cons s rest ih =>
+    intro kept x h
+    unfold rrGo at h
+    split at h
+    · rcases ih kept x h with h | h
+      · exact Or.inl h
+      · exact Or.inr (by simp [h])
+    · rcases ih (kept ++ [s]) x h with h | h
+      · rcases mem_snoc h with h | h
+        · exact Or.inl h
+        · exact Or.inr (by simp [h])
+      · exact Or.inr (by simp [h])
+
+theorem removeRedundant_sub (sols : List Ty) (x : Ty) (h : x ∈ removeRedundant le sols) : x ∈ sols := by
+  unfold removeRedundant at h
+  split at h
+  · exact h
+  · rcases rrGo_sub le sols [] x h with h | h
+    · simp at h
+    · exact h
+
+/-- the ways `choose` can succeed -/
+theorem choose_ok {sol : Ty} {src : Src} {opts : Option (List Ty)} {s : Ty} {src' : Src}
+    (h : choose le sol src opts = .ok s src') :
+    (opts = none ∧ s = sol) ∨
+    (∃ cs, opts = some cs ∧ ((s ∈ cs ∧ le sol s = true) ∨ (s = sol ∧ isAny sol = true) ∨ s = .any)) := by
+  cases opts with
+  | none =>
+    simp only [choose, Result.ok.injEq] at h
+    exact Or.inl ⟨rfl, h.1.symm⟩
+  | some cs =>
+    refine Or.inr ⟨cs, rfl, ?_⟩
+    simp only [choose] at h
+    have hmem : ∀ a, a ∈ cs.filter (fun o => le sol o) → a ∈ cs ∧ le sol a = true := by
+      intro a ha; simpa using ha
+    generalize cs.filter (fun o => le sol o) = av at h hmem
+    split at h
+    · simp at h
+    · rename_i a
+      simp only [Result.ok.injEq] at h
+      rw [← h.1]; exact Or.inl (hmem a (by simp))
+    · split at h
+      · rename_i hany
+        simp only [Result.ok.injEq] at h
+        exact Or.inr (Or.inl ⟨h.1.symm, hany⟩)
+      · split at h
+        · rename_i a' heq
+          simp only [Result.ok.injEq] at h
+          rw [← h.1]
+          have : a' ∈ removeRedundant le av := by rw [heq]; simp
+          exact Or.inl (hmem a' (removeRedundant_sub le _ _ this))
+        · simp only [Result.ok.injEq] at h
+          exact Or.inr (Or.inr h.1.symm)
+
+theorem choose_isOk (sol : Ty) (src : Src) (opts : Option (List Ty)) :
+    (choose le sol src opts).isOk =
+      (match opts with | none => true | some cs => cs.any fun o => le sol o) := by
+  cases opts with
+  | none => simp [choose, Result.isOk]
+  | some cs =>
+    simp only [choose]
+    have hiff : (cs.any fun o => le sol o) = !(cs.filter fun o => le sol o).isEmpty := by
+      induction cs with
+      | nil => simp
+      | cons c cs ih =>
+        by_cases hc : le sol c = true
+        · simp [List.filter, hc]
+        · have hc' : le sol c = false := by simpa using hc
+          simp [List.filter, hc', ih]
+    simp only [hiff]
+    generalize cs.filter (fun o => le sol o) = av
+    split
+    · simp [Result.isOk]
+    · simp [Result.isOk]
+    · rename_i h1 h2
+      have hne : av.isEmpty = false := by
+        cases av with
+        | nil => exact absurd rfl h1
+        | cons _ _ => rfl
+      rw [hne]
+      split
+      · simp [Result.isOk]
+      · split <;> simp [Result.isOk]
+
+end Choose
+
+/-! ### 4. the assembled facts about `solve` -/
+section Solve
+variable {S : Ty → Prop} {le : Ty → Ty → Bool} {join : Ty → Ty → Ty}
+
+theorem solve_unfold (bs : List Bound) :
+    solve le join bs =
+      finish le ⟨(lowers bs).foldl (lowStep le join) none, (uppers bs).foldl (upStep le join) none,
+                 (oneOfs bs).getLast?⟩ := by
+  unfold solve
+  rw [run_eq, optFold_eq]
+  congr 2
+  cases (oneOfs bs).getLast? <;> rfl
+
+theorem reach_lowers {bs : List Bound} {v : Ty} (h : v ∈ lowers bs) : v ∈ reach le join bs := by
+  simp [reach, boundVals, h]
+theorem reach_uppers {bs : List Bound} {v : Ty} (h : v ∈ uppers bs) : v ∈ reach le join bs := by
+  simp [reach, boundVals, h]
+theorem reach_options {bs : List Bound} {cs : List Ty} {v : Ty} (hcs : cs ∈ oneOfs bs) (h : v ∈ cs) :
+    v ∈ reach le join bs := by
+  simp only [reach, boundVals, List.mem_append, List.mem_flatten]
+  exact Or.inl (Or.inr ⟨cs, hcs, h⟩)
+theorem reach_lowTrail {bs : List Bound} {x : Ty}
+    (h : x ∈ lowTrail le join none (lowers bs)) : x ∈ reach le join bs := by
+  simp only [reach, List.mem_append]
+  exact Or.inr (lowTrail_sub le join {} bs x h)
+
+/-- the invariant of `bottom` at the end of the loop -/
+theorem bottom_inv (hL : Laws S le join) (hA : AnyLaws le) (bs : List Bound)
+    (hreach : ∀ v ∈ reach le join bs, AS S v) :
+    InvLowO S le (lowers bs) ((lowers bs).foldl (lowStep le join) none) := by
+  have := low_fold hL hA (lowers bs) [] none rfl
+    (fun v hv => hreach v (reach_lowers hv)) (fun x hx => hreach x (reach_lowTrail hx))
+  simpa using this
+
+/-- the invariant of `top` at the end of the loop, for pairwise comparable non-`Any` upper bounds -/
+theorem top_inv (hL : Laws S le join) (bs : List Bound)
+    (hreach : ∀ v ∈ reach le join bs, AS S v)
+    (hnoAny : D15_anyUpper bs = false) (hch : D15_twoUppers le bs = false) :
+    InvTopO le (uppers bs) ((uppers bs).foldl (upStep le join) none) := by
+  have hS : ∀ u ∈ uppers bs, S u := by
+    intro u hu
+    refine (hreach u (reach_uppers hu)).of_notAny ?_
+    simp only [D15_anyUpper, List.any_eq_false] at hnoAny
+    simpa using hnoAny u hu
+  have hch' : ∀ u ∈ uppers bs, ∀ v ∈ uppers bs, le u v = true ∨ le v u = true := by
+    intro u hu v hv
+    by_cases h1 : le u v = true
+    · exact Or.inl h1
+    · by_cases h2 : le v u = true
+      · exact Or.inr h2
+      · exfalso
+        have : D15_twoUppers le bs = true := by
+          simp only [D15_twoUppers, List.any_eq_true]
+          exact ⟨u, hu, v, hv, by simp [h1, h2]⟩
+        rw [hch] at this; exact absurd this (by simp)
+  have := up_fold hL (uppers bs) hS hch' (uppers bs) [] none rfl (by simp) (fun v hv => hv)
+  simpa using this
+
+theorem mem_of_getLast? {α} {l : List α} {a : α} (h : l.getLast? = some a) : a ∈ l :=
+  List.mem_of_getLast? h
+
+/-- **lower bounds** — the solution accepts every lower bound. -/
+theorem solve_lower_core (hL : Laws S le join) (hA : AnyLaws le) (bs : List Bound)
+    (hreach : ∀ v ∈ reach le join bs, AS S v) {s : Ty} {src : Src}
+    (h : solve le join bs = .ok s src) : ∀ l ∈ lowers bs, le l s = true := by
+  have hinv := bottom_inv hL hA bs hreach
+  rw [solve_unfold] at h
+  cases hb : (lowers bs).foldl (lowStep le join) none with
+  | none =>
+    rw [hb] at hinv
+    simp only [InvLowO] at hinv
+    intro l hl; rw [hinv] at hl; simp at hl
+  | some b =>
+    rw [hb] at hinv h
+    simp only [InvLowO] at hinv
+    -- the value handed to `choose` is `b`
+    have hch : ∃ src0, choose le b src0 (oneOfs bs).getLast? = .ok s src := by
+      unfold finish pick at h
+      cases ht : (uppers bs).foldl (upStep le join) none with
+      | none => rw [ht] at h; exact ⟨_, h⟩
+      | some t =>
+        rw [ht] at h
+        simp only at h
+        by_cases hbt : le b t = true
+        · simp only [hbt, if_true] at h; exact ⟨_, h⟩
+        · simp [hbt] at h
+    obtain ⟨src0, hch⟩ := hch
+    intro l hl
+    have hlb := hinv.ub l hl
+    rcases choose_ok le hch with ⟨_, hs⟩ | ⟨cs, hcs, hs | hs | hs⟩
+    · rw [hs]; exact hlb
+    · obtain ⟨hmem, hle⟩ := hs
+      have hAs : AS S s := hreach s (reach_options (mem_of_getLast? hcs) hmem)
+      by_cases hba : isAny b = true
+      · rw [hinv.anyb (isAny_iff.mp hba) l hl]; exact hA.le_any_left _
+      · exact le_trans_as hL hA (hinv.all l hl) (hinv.as.of_notAny (by simpa using hba)) hAs hlb hle
+    · rw [hs.1]; exact hlb
+    · rw [hs]; exact hA.le_any_right _
+
+/-- **constraints** — with constraints the solution is one of them, or `Any`. -/
+theorem solve_constraint_core (bs : List Bound) {s : Ty} {src : Src} {cs : List Ty}
+    (h : solve le join bs = .ok s src) (hcs : lastOneOf bs = some cs) : s ∈ cs ∨ s = .any := by
+  rw [solve_unfold] at h
+  unfold finish at h
+  split at h
+  · rename_i sol src0 _
+    simp only [lastOneOf] at hcs
+    rw [hcs] at h
+    rcases choose_ok le h with ⟨h1, _⟩ | ⟨cs', hcs', hs | hs | hs⟩
+    · simp at h1
+    · simp only [Option.some.injEq] at hcs'; rw [hcs']; exact Or.inl hs.1
+    · exact Or.inr (by rw [hs.1]; exact isAny_iff.mp hs.2)
+    · exact Or.inr hs
+  · rename_i hne
+    exact absurd h (by
+      intro h'
+      exact hne s src (by rw [← h']))
+
+theorem uppers_S (bs : List Bound) (hreach : ∀ v ∈ reach le join bs, AS S v)
+    (hnoAny : D15_anyUpper bs = false) : ∀ u ∈ uppers bs, S u := by
+  intro u hu
+  refine (hreach u (reach_uppers hu)).of_notAny ?_
+  simp only [D15_anyUpper, List.any_eq_false] at hnoAny
+  simpa using hnoAny u hu
+
+theorem oneOfs_nil_of_upper {bs : List Bound} (hno : D15_oneOfUpper bs = false) {u : Ty}
+    (hu : u ∈ uppers bs) : oneOfs bs = [] := by
+  cases h : oneOfs bs with
+  | nil => rfl
+  | cons c cs =>
+    cases hU : uppers bs with
+    | nil => rw [hU] at hu; simp at hu
+    | cons _ _ => simp [D15_oneOfUpper, h, hU] at hno
+
+theorem uppers_nil_of_oneOf {bs : List Bound} (hno : D15_oneOfUpper bs = false) {c : List Ty}
+    {cs : List (List Ty)} (h : oneOfs bs = c :: cs) : uppers bs = [] := by
+  cases hU : uppers bs with
+  | nil => rfl
+  | cons _ _ => simp [D15_oneOfUpper, h, hU] at hno
+
+/-- **upper bounds** — outside the three exception classes the solution is accepted by every
+upper bound. -/
+theorem solve_upper_core (hL : Laws S le join) (hA : AnyLaws le) (bs : List Bound)
+    (hreach : ∀ v ∈ reach le join bs, AS S v)
+    (hnoAny : D15_anyUpper bs = false) (hch : D15_twoUppers le bs = false)
+    (hno : D15_oneOfUpper bs = false) {s : Ty} {src : Src}
+    (h : solve le join bs = .ok s src) : ∀ u ∈ uppers bs, le s u = true := by
+  intro u hu
+  have hone := oneOfs_nil_of_upper hno hu
+  have hT := top_inv hL bs hreach hnoAny hch
+  have hB := bottom_inv hL hA bs hreach
+  have hSU := uppers_S bs hreach hnoAny
+  rw [solve_unfold, hone] at h
+  simp only [List.getLast?_nil] at h
+  cases ht : (uppers bs).foldl (upStep le join) none with
+  | none =>
+    rw [ht] at hT
+    simp only [InvTopO] at hT
+    rw [hT] at hu; simp at hu
+  | some t =>
+    rw [ht] at hT h
+    simp only [InvTopO] at hT
+    have hSt : S t := hSU t hT.mem
+    cases hb : (lowers bs).foldl (lowStep le join) none with
+    | none =>
+      rw [hb] at h
+      simp only [finish, pick, choose, Result.ok.injEq] at h
+      rw [← h.1]; exact hT.lb u hu
+    | some b =>
+      rw [hb] at h hB
+      simp only [InvLowO] at hB
+      simp only [finish, pick] at h
+      by_cases hbt : le b t = true
+      · simp only [hbt, if_true, choose, Result.ok.injEq] at h
+        rw [← h.1]
+        exact le_trans_as hL hA hB.as hSt (Or.inr (hSU u hu)) hbt (hT.lb u hu)
+      · simp [hbt] at h
+
+/-- **verdict** — outside the exception classes, and with at most one constraint list, the solver
+accepts exactly the satisfiable bound sets. -/
+theorem solve_isOk_eq_spec (hL : Laws S le join) (hA : AnyLaws le) (bs : List Bound)
+    (hreach : ∀ v ∈ reach le join bs, AS S v)
+    (hnoAny : D15_anyUpper bs = false) (hch : D15_twoUppers le bs = false)
+    (hno : D15_oneOfUpper bs = false) (hone : multiOneOf bs = false) :
+    (solve le join bs).isOk = specOk le bs := by
+  have hT := top_inv hL bs hreach hnoAny hch
+  have hB := bottom_inv hL hA bs hreach
+  have hSU := uppers_S bs hreach hnoAny
+  have hASl : ∀ l ∈ lowers bs, AS S l := fun l hl => hreach l (reach_lowers hl)
+  rw [solve_unfold]
+  cases hO : oneOfs bs with
+  | nil =>
+    simp only [List.getLast?_nil, specOk, hO, Bool.and_true]
+    cases hb : (lowers bs).foldl (lowStep le join) none with
+    | none =>
+      rw [hb] at hB
+      simp only [InvLowO] at hB
+      rw [hB]
+      cases (uppers bs).foldl (upStep le join) none <;> simp [finish, pick, choose, Result.isOk]
+    | some b =>
+      rw [hb] at hB
+      simp only [InvLowO] at hB
+      cases ht : (uppers bs).foldl (upStep le join) none with
+      | none =>
+        rw [ht] at hT
+        simp only [InvTopO] at hT
+        simp [finish, pick, choose, Result.isOk, hT]
+      | some t =>
+        rw [ht] at hT
+        simp only [InvTopO] at hT
+        have hSt : S t := hSU t hT.mem
+        have hiff : le b t = true ↔ ∀ l ∈ lowers bs, ∀ u ∈ uppers bs, le l u = true := by
+          constructor
+          · intro hbt l hl u hu
+            by_cases hba : isAny b = true
+            · rw [hB.anyb (isAny_iff.mp hba) l hl]; exact hA.le_any_left _
+            · have hSb : S b := hB.as.of_notAny (by simpa using hba)
+              have h1 : le l t = true := le_trans_as hL hA (hASl l hl) hSb (Or.inr hSt) (hB.ub l hl) hbt
+              exact le_trans_as hL hA (hASl l hl) hSt (Or.inr (hSU u hu)) h1 (hT.lb u hu)
+          · intro hall
+            by_cases hba : isAny b = true
+            · rw [isAny_iff.mp hba]; exact hA.le_any_left _
+            · exact hB.lub t hSt fun l hl => hall l hl t hT.mem
+        have hl : (finish le ⟨some b, some t, none⟩).isOk = le b t := by
+          by_cases hbt : le b t = true
+          · simp [finish, pick, choose, Result.isOk, hbt]
+          · have hbt' : le b t = false := by simpa using hbt
+            simp [finish, pick, Result.isOk, hbt']
+        rw [hl, Bool.eq_iff_iff]
+        simp only [List.all_eq_true]
+        exact hiff
+  | cons cs rest =>
+    have hrest : rest = [] := by
+      cases rest with
+      | nil => rfl
+      | cons _ _ => simp [multiOneOf, hO] at hone
+    subst hrest
+    have hU : uppers bs = [] := uppers_nil_of_oneOf hno hO
+    have hAScs : ∀ o ∈ cs, AS S o := fun o ho => hreach o (reach_options (by rw [hO]; simp) ho)
+    have hspec : specOk le bs = cs.any fun o => (lowers bs).all fun l => le l o := by
+      simp [specOk, hO, hU]
+    rw [hspec]
+    simp only [List.getLast?_singleton, hU, List.foldl_nil]
+    cases hb : (lowers bs).foldl (lowStep le join) none with
+    | none =>
+      rw [hb] at hB
+      simp only [InvLowO] at hB
+      simp [finish, pick, choose_isOk, hB, hA.le_any_left]
+    | some b =>
+      rw [hb] at hB
+      simp only [InvLowO] at hB
+      simp only [finish, pick, choose_isOk]
+      rw [Bool.eq_iff_iff]
+      simp only [List.any_eq_true, List.all_eq_true]
+      constructor
+      · rintro ⟨o, ho, hbo⟩
+        refine ⟨o, ho, fun l hl => ?_⟩
+        by_cases hba : isAny b = true
+        · rw [hB.anyb (isAny_iff.mp hba) l hl]; exact hA.le_any_left _
+        · exact le_trans_as hL hA (hASl l hl) (hB.as.of_notAny (by simpa using hba)) (hAScs o ho)
+            (hB.ub l hl) hbo
+      · rintro ⟨o, ho, hlo⟩
+        refine ⟨o, ho, ?_⟩
+        by_cases hba : isAny b = true
+        · rw [isAny_iff.mp hba]; exact hA.le_any_left _
+        · rcases hAScs o ho with hoa | hSo
+          · rw [hoa]; exact hA.le_any_right _
+          · exact hB.lub o hSo hlo
+
+/-- An order-free description of the solver's verdict that also covers constraints combined with upper
+bounds (where the solver accepts more than `specOk`): with constraints, some constraint has to
+accept the lower bounds — or, without lower bounds, to accept some upper bound. -/
+def verdictSpec (le : Ty → Ty → Bool) (bs : List Bound) : Bool :=
+  ((lowers bs).all fun l => (uppers bs).all fun u => le l u) &&
+  match oneOfs bs with
+  | [] => true
+  | cs :: _ =>
+    if (lowers bs).isEmpty then
+      (if (uppers bs).isEmpty then !cs.isEmpty else cs.any fun o => (uppers bs).any fun u => le u o)
+    else cs.any fun o => (lowers bs).all fun l => le l o
+
+theorem any_true_eq {α} (l : List α) : (l.any fun _ => true) = !l.isEmpty := by
+  cases l <;> simp
+
+theorem solve_isOk_eq_verdictSpec (hL : Laws S le join) (hA : AnyLaws le) (bs : List Bound)
+    (hreach : ∀ v ∈ reach le join bs, AS S v)
+    (hnoAny : D15_anyUpper bs = false) (hch : D15_twoUppers le bs = false)
+    (hone : multiOneOf bs = false) :
+    (solve le join bs).isOk = verdictSpec le bs := by
+  have hT := top_inv hL bs hreach hnoAny hch
+  have hB := bottom_inv hL hA bs hreach
+  have hSU := uppers_S bs hreach hnoAny
+  have hASl : ∀ l ∈ lowers bs, AS S l := fun l hl => hreach l (reach_lowers hl)
+  cases hO : oneOfs bs with
+  | nil =>
+    -- no constraints: `oneOfUpper` is vacuous and `verdictSpec` is `specOk`
+    have h3 : D15_oneOfUpper bs = false := by simp [D15_oneOfUpper, hO]
+    rw [solve_isOk_eq_spec hL hA bs hreach hnoAny hch h3 hone]
+    simp [specOk, verdictSpec, hO]
+  | cons cs rest =>
+    have hrest : rest = [] := by
+      cases rest with
+      | nil => rfl
+      | cons _ _ => simp [multiOneOf, hO] at hone
+    subst hrest
+    have hAScs : ∀ o ∈ cs, AS S o := fun o ho => hreach o (reach_options (by rw [hO]; simp) ho)
+    rw [solve_unfold, hO]
+    simp only [List.getLast?_singleton, verdictSpec, hO]
+    -- what the constraints demand of the value handed to `choose`
+    have hopt : ∀ b, InvLow S le (lowers bs) b →
+        (cs.any fun o => le b o) = (cs.any fun o => (lowers bs).all fun l => le l o) := by
+      intro b hB
+      rw [Bool.eq_iff_iff]
+      simp only [List.any_eq_true, List.all_eq_true]
+      constructor
+      · rintro ⟨o, ho, hbo⟩
+        refine ⟨o, ho, fun l hl => ?_⟩
+        by_cases hba : isAny b = true
+        · rw [hB.anyb (isAny_iff.mp hba) l hl]; exact hA.le_any_left _
+        · exact le_trans_as hL hA (hASl l hl) (hB.as.of_notAny (by simpa using hba)) (hAScs o ho)
+            (hB.ub l hl) hbo
+      · rintro ⟨o, ho, hlo⟩
+        refine ⟨o, ho, ?_⟩
+        by_cases hba : isAny b = true
+        · rw [isAny_iff.mp hba]; exact hA.le_any_left _
+        · rcases hAScs o ho with hoa | hSo
+          · rw [hoa]; exact hA.le_any_right _
+          · exact hB.lub o hSo hlo
+    cases hb : (lowers bs).foldl (lowStep le join) none with
+    | none =>
+      rw [hb] at hB
+      simp only [InvLowO] at hB
+      simp only [hB, List.all_nil, Bool.true_and, List.isEmpty_nil, if_true]
+      cases ht : (uppers bs).foldl (upStep le join) none with
+      | none =>
+        rw [ht] at hT
+        simp only [InvTopO] at hT
+        simp [finish, pick, choose_isOk, hT, hA.le_any_left, any_true_eq]
+      | some t =>
+        rw [ht] at hT
+        simp only [InvTopO] at hT
+        have hne : (uppers bs).isEmpty = false := by
+          cases hU : uppers bs with
+          | nil => rw [hU] at hT; exact absurd hT.mem (by simp)
+          | cons _ _ => rfl
+        simp only [finish, pick, choose_isOk, hne]
+        rw [Bool.eq_iff_iff]
+        simp only [List.any_eq_true, Bool.false_eq_true, if_false]
+        constructor
+        · rintro ⟨o, ho, hto⟩
+          exact ⟨o, ho, t, hT.mem, hto⟩
+        · rintro ⟨o, ho, u, hu, huo⟩
+          exact ⟨o, ho, le_trans_as hL hA (Or.inr (hSU t hT.mem)) (hSU u hu) (hAScs o ho) (hT.lb u hu) huo⟩
+    | some b =>
+      rw [hb] at hB
+      simp only [InvLowO] at hB
+      have hne : (lowers bs).isEmpty = false := by
+        cases hLw : lowers bs with
+        | nil => exact absurd hLw hB.ne
+        | cons _ _ => rfl
+      simp only [hne, Bool.false_eq_true, if_false]
+      rw [← hopt b hB]
+      cases ht : (uppers bs).foldl (upStep le join) none with
+      | none =>
+        rw [ht] at hT
+        simp only [InvTopO] at hT
+        simp [finish, pick, choose_isOk, hT]
+      | some t =>
+        rw [ht] at hT
+        simp only [InvTopO] at hT
+        have hSt : S t := hSU t hT.mem
+        have hiff : le b t = ((lowers bs).all fun l => (uppers bs).all fun u => le l u) := by
+          rw [Bool.eq_iff_iff]
+          simp only [List.all_eq_true]
+          constructor
+          · intro hbt l hl u hu
+            by_cases hba : isAny b = true
+            · rw [hB.anyb (isAny_iff.mp hba) l hl]; exact hA.le_any_left _
+            · have hSb : S b := hB.as.of_notAny (by simpa using hba)
+              have h1 : le l t = true := le_trans_as hL hA (hASl l hl) hSb (Or.inr hSt) (hB.ub l hl) hbt
+              exact le_trans_as hL hA (hASl l hl) hSt (Or.inr (hSU u hu)) h1 (hT.lb u hu)
+          · intro hall
+            by_cases hba : isAny b = true
+            · rw [isAny_iff.mp hba]; exact hA.le_any_left _
+            · exact hB.lub t hSt fun l hl => hall l hl t hT.mem
+        rw [← hiff]
+        by_cases hbt : le b t = true
+        · simp [finish, pick, choose_isOk, hbt]
+        · have hbt' : le b t = false := by simpa using hbt
+          simp [finish, pick, Result.isOk, hbt']
+
+/-- **the specification means what it says**: `specOk` holds exactly when some value of the carrier
+satisfies all the bounds (pairwise comparable non-`Any` upper bounds, constraints in the carrier,
+at most one constraint list). -/
+theorem specOk_iff_exists_core (hL : Laws S le join) (hA : AnyLaws le) (bs : List Bound)
+    (hreach : ∀ v ∈ reach le join bs, AS S v)
+    (hopt : ∀ cs ∈ oneOfs bs, ∀ c ∈ cs, S c)
+    (hnoAny : D15_anyUpper bs = false) (hch : D15_twoUppers le bs = false)
+    (hone : multiOneOf bs = false) (hne : ∃ a, S a) :
+    specOk le bs = true ↔ ∃ s, S s ∧ Sat le bs s := by
+  have hT := top_inv hL bs hreach hnoAny hch
+  have hB := bottom_inv hL hA bs hreach
+  have hSU := uppers_S bs hreach hnoAny
+  have hASl : ∀ l ∈ lowers bs, AS S l := fun l hl => hreach l (reach_lowers hl)
+  constructor
+  · intro hspec
+    simp only [specOk, Bool.and_eq_true, List.all_eq_true] at hspec
+    obtain ⟨hlu, hopts⟩ := hspec
+    cases hO : oneOfs bs with
+    | cons cs rest =>
+      have hrest : rest = [] := by
+        cases rest with
+        | nil => rfl
+        | cons _ _ => simp [multiOneOf, hO] at hone
+      subst hrest
+      rw [hO] at hopts
+      simp only [List.any_eq_true, Bool.and_eq_true, List.all_eq_true] at hopts
+      obtain ⟨o, ho, ⟨_, hlo⟩, huo⟩ := hopts
+      refine ⟨o, hopt cs (by rw [hO]; simp) o ho, hlo, huo, ?_⟩
+      intro cs' hcs'
+      rw [hO] at hcs'
+      have : cs' = cs := by simpa using hcs'
+      rw [this]; exact ho
+    | nil =>
+      -- a least upper bound of the lower bounds, or a least upper bound, or any member of the carrier
+      have hsat0 : ∀ cs ∈ oneOfs bs, ∀ (s : Ty), s ∈ cs := by intro cs hcs; rw [hO] at hcs; simp at hcs
+      have fromTop : (∀ l ∈ lowers bs, l = .any) → ∃ s, S s ∧ Sat le bs s := by
+        intro hallAny
+        cases ht : (uppers bs).foldl (upStep le join) none with
+        | none =>
+          rw [ht] at hT
+          simp only [InvTopO] at hT
+          obtain ⟨a, ha⟩ := hne
+          refine ⟨a, ha, fun l hl => ?_, fun u hu => ?_, fun cs hcs => hsat0 cs hcs a⟩
+          · rw [hallAny l hl]; exact hA.le_any_left _
+          · rw [hT] at hu; simp at hu
+        | some t =>
+          rw [ht] at hT
+          simp only [InvTopO] at hT
+          refine ⟨t, hSU t hT.mem, fun l hl => ?_, hT.lb, fun cs hcs => hsat0 cs hcs t⟩
+          rw [hallAny l hl]; exact hA.le_any_left _
+      cases hb : (lowers bs).foldl (lowStep le join) none with
+      | none =>
+        rw [hb] at hB
+        simp only [InvLowO] at hB
+        exact fromTop (by rw [hB]; simp)
+      | some b =>
+        rw [hb] at hB
+        simp only [InvLowO] at hB
+        by_cases hba : isAny b = true
+        · exact fromTop (hB.anyb (isAny_iff.mp hba))
+        · have hSb : S b := hB.as.of_notAny (by simpa using hba)
+          refine ⟨b, hSb, hB.ub, fun u hu => ?_, fun cs hcs => hsat0 cs hcs b⟩
+          exact hB.lub u (hSU u hu) fun l hl => hlu l hl u hu
+  · rintro ⟨s, hSs, hlow, hup, hoo⟩
+    simp only [specOk, Bool.and_eq_true, List.all_eq_true]
+    refine ⟨fun l hl u hu => le_trans_as hL hA (hASl l hl) hSs (Or.inr (hSU u hu)) (hlow l hl) (hup u hu), ?_⟩
+    cases hO : oneOfs bs with
+    | nil => rfl
+    | cons cs rest =>
+      have hrest : rest = [] := by
+        cases rest with
+        | nil => rfl
+        | cons _ _ => simp [multiOneOf, hO] at hone
+      subst hrest
+      simp only [List.any_eq_true, Bool.and_eq_true, List.all_eq_true]
+      exact ⟨s, hoo cs (by rw [hO]; simp), ⟨by simp, hlow⟩, hup⟩
+
+end Solve
+
+/-! ### 5. permutations -/
+section Perm
+
+theorem lowers_perm {bs bs' : List Bound} (h : bs.Perm bs') : (lowers bs).Perm (lowers bs') := by
+  induction h with
+  | nil => exact List.Perm.refl _
+  | cons x _ ih => cases x <;> simp [lowers, ih]
+  | swap x y l => cases x <;> cases y <;> simp [lowers, List.Perm.swap]
+  | trans _ _ ih1 ih2 => exact ih1.trans ih2
+
+theorem uppers_perm {bs bs' : List Bound} (h : bs.Perm bs') : (uppers bs).Perm (uppers bs') := by
+  induction h with
+  | nil => exact List.Perm.refl _
+  | cons x _ ih => cases x <;> simp [uppers, ih]
+  | swap x y l => cases x <;> cases y <;> simp [uppers, List.Perm.swap]
+  | trans _ _ ih1 ih2 => exact ih1.trans ih2
+
+theorem oneOfs_perm {bs bs' : List Bound} (h : bs.Perm bs') : (oneOfs bs).Perm (oneOfs bs') := by
+  induction h with
+  | nil => exact List.Perm.refl _
+  | cons x _ ih => cases x <;> simp [oneOfs, ih]
+  | swap x y l => cases x <;> cases y <;> simp [oneOfs, List.Perm.swap]
+  | trans _ _ ih1 ih2 => exact ih1.trans ih2
+
+theorem all_perm {α} {l l' : List α} (h : l.Perm l') (p : α → Bool) : l.all p = l'.all p := by
+  rw [Bool.eq_iff_iff]
+  simp only [List.all_eq_true]
+  exact ⟨fun H x hx => H x (h.mem_iff.mpr hx), fun H x hx => H x (h.mem_iff.mp hx)⟩
+
+theorem any_perm {α} {l l' : List α} (h : l.Perm l') (p : α → Bool) : l.any p = l'.any p := by
+  rw [Bool.eq_iff_iff]
+  simp only [List.any_eq_true]
+  exact ⟨fun ⟨x, hx, hp⟩ => ⟨x, h.mem_iff.mp hx, hp⟩, fun ⟨x, hx, hp⟩ => ⟨x, h.mem_iff.mpr hx, hp⟩⟩
+
+theorem oneOfs_eq_of_perm {bs bs' : List Bound} (h : bs.Perm bs') (hone : multiOneOf bs = false) :
+    oneOfs bs' = oneOfs bs := by
+  have hp := oneOfs_perm h
+  cases hO : oneOfs bs with
+  | nil => rw [hO] at hp; exact hp.symm.eq_nil
+  | cons c rest =>
+    cases rest with
+    | nil => rw [hO] at hp; exact List.perm_singleton.mp hp.symm
+    | cons _ _ => simp [multiOneOf, hO] at hone
+
+variable (le : Ty → Ty → Bool)
+
+theorem specOk_perm {bs bs' : List Bound} (h : bs.Perm bs') (hone : multiOneOf bs = false) :
+    specOk le bs' = specOk le bs := by
+  have hl := lowers_perm h
+  have hu := uppers_perm h
+  have ho := oneOfs_eq_of_perm h hone
+  unfold specOk
+  rw [ho]
+  have e1 : ((lowers bs').all fun l => (uppers bs').all fun u => le l u) =
+      ((lowers bs).all fun l => (uppers bs).all fun u => le l u) := by
+    rw [all_perm hl.symm]
+    congr 1; funext l
+    exact all_perm hu.symm _
+  rw [e1]
+  congr 1
+  cases oneOfs bs with
+  | nil => rfl
+  | cons cs rest =>
+    simp only
+    congr 1; funext o
+    rw [all_perm hl.symm, all_perm hu.symm]
+
+theorem anyUpper_perm {bs bs' : List Bound} (h : bs.Perm bs') : D15_anyUpper bs' = D15_anyUpper bs := by
+  unfold D15_anyUpper; exact any_perm (uppers_perm h).symm _
+
+theorem twoUppers_perm {bs bs' : List Bound} (h : bs.Perm bs') :
+    D15_twoUppers le bs' = D15_twoUppers le bs := by
+  unfold D15_twoUppers
+  rw [any_perm (uppers_perm h).symm]
+  congr 1; funext u
+  exact any_perm (uppers_perm h).symm _
+
+theorem isEmpty_perm {α} {l l' : List α} (h : l.Perm l') : l.isEmpty = l'.isEmpty := by
+  cases l with
+  | nil => rw [h.symm.eq_nil]
+  | cons a l =>
+    cases l' with
+    | nil => exact absurd h.eq_nil (by simp)
+    | cons _ _ => rfl
+
+theorem oneOfUpper_perm {bs bs' : List Bound} (h : bs.Perm bs') :
+    D15_oneOfUpper bs' = D15_oneOfUpper bs := by
+  unfold D15_oneOfUpper
+  rw [isEmpty_perm (oneOfs_perm h), isEmpty_perm (uppers_perm h)]
+
+theorem multiOneOf_perm {bs bs' : List Bound} (h : bs.Perm bs') : multiOneOf bs' = multiOneOf bs := by
+  unfold multiOneOf
+  rw [(oneOfs_perm h).length_eq]
+
+theorem verdictSpec_perm (le : Ty → Ty → Bool) {bs bs' : List Bound} (h : bs.Perm bs')
+    (hone : multiOneOf bs = false) : verdictSpec le bs' = verdictSpec le bs := by
+  have hl := lowers_perm h
+  have hu := uppers_perm h
+  have ho := oneOfs_eq_of_perm h hone
+  unfold verdictSpec
+  rw [ho]
+  have e1 : ((lowers bs').all fun l => (uppers bs').all fun u => le l u) =
+      ((lowers bs).all fun l => (uppers bs).all fun u => le l u) := by
+    rw [all_perm hl.symm]
+    congr 1; funext l
+    exact all_perm hu.symm _
+  rw [e1, isEmpty_perm hl.symm, isEmpty_perm hu.symm]
+  congr 1
+  cases oneOfs bs with
+  | nil => rfl
+  | cons cs rest =>
+    simp only
+    congr 1
+    · congr 1; congr 1; funext o
+      exact any_perm hu.symm _
+    · congr 1; funext o
+      exact all_perm hl.symm _
+
+end Perm
+
+/-! ### 6. from the decidable check to the laws -/
+section Local
+variable {le : Ty → Ty → Bool} {join : Ty → Ty → Ty}
+
+/-- the carrier of the local theorems: the non-`Any` members of a finite list -/
+def SLoc (V : List Ty) (t : Ty) : Prop := t ∈ V ∧ isAny t = false
+
+theorem laws_of_lawsOn (V : List Ty) (h : lawsOn le join V = true) : Laws (SLoc V) le join := by
+  simp only [lawsOn, List.all_eq_true, List.mem_filter, Bool.and_eq_true, Bool.not_eq_true',
+    Bool.or_eq_true, and_imp] at h
+  have key : ∀ a, SLoc V a → le a a = true ∧ ∀ b, SLoc V b →
+      (isAny (join a b) = false ∧ le a (join a b) = true ∧ le b (join a b) = true) ∧
+      ∀ c, SLoc V c → ((le a b = false ∨ le b c = false) ∨ le a c = true) ∧
+                       ((le a c = false ∨ le b c = false) ∨ le (join a b) c = true) := by
+    intro a ha
+    obtain ⟨h1, h2⟩ := h a ha.1 ha.2
+    refine ⟨h1, fun b hb => ?_⟩
+    obtain ⟨h3, h4⟩ := h2 b hb.1 hb.2
+    refine ⟨⟨h3.1.1, h3.1.2, h3.2⟩, fun c hc => ?_⟩
+    obtain ⟨h5, h6⟩ := h4 c hc.1 hc.2
+    constructor
+    · rcases h5 with h5 | h5
+      · left
+        cases hab : le a b with
+        | false => exact Or.inl rfl
+        | true =>
+          right
+          cases hbc : le b c with
+          | false => rfl
+          | true => simp [hab, hbc] at h5
+      · exact Or.inr h5
+    · rcases h6 with h6 | h6
+      · left
+        cases hac : le a c with
+        | false => exact Or.inl rfl
+        | true =>
+          right
+          cases hbc : le b c with
+          | false => rfl
+          | true => simp [hac, hbc] at h6
+      · exact Or.inr h6
+  refine ⟨fun a ha => ha.2, fun a ha => (key a ha).1, ?_, ?_, ?_, ?_, ?_⟩
+  · intro a b c ha hb hc hab hbc
+    rcases (((key a ha).2 b hb).2 c hc).1 with (h | h) | h
+    · rw [hab] at h; exact absurd h (by simp)
+    · rw [hbc] at h; exact absurd h (by simp)
+    · exact h
+  · intro a b ha hb; exact ((key a ha).2 b hb).1.1
+  · intro a b ha hb; exact ((key a ha).2 b hb).1.2.1
+  · intro a b ha hb; exact ((key a ha).2 b hb).1.2.2
+  · intro a b c ha hb hc hac hbc
+    rcases (((key a ha).2 b hb).2 c hc).2 with (h | h) | h
+    · rw [hac] at h; exact absurd h (by simp)
+    · rw [hbc] at h; exact absurd h (by simp)
+    · exact h
+
+theorem as_sloc (V : List Ty) : ∀ v ∈ V, AS (SLoc V) v := by
+  intro v hv
+  cases h : isAny v with
+  | true => exact Or.inl (isAny_iff.mp h)
+  | false => exact Or.inr ⟨hv, h⟩
+
+end Local
+
+/-! ### 6b. a carrier closed under `join` contains everything the solver meets -/
+section Closed
+variable {S : Ty → Prop} {le : Ty → Ty → Bool} {join : Ty → Ty → Ty}
+
+theorem lowStep_AS (hA : AnyLaws le) (hcl : ∀ a b, S a → S b → S (join a b)) {bot : Option Ty} {v : Ty}
+    (hb : ∀ b, bot = some b → AS S b) (hv : AS S v) :
+    ∀ x, lowStep le join bot v = some x → AS S x := by
+  intro x hx
+  cases bot with
+  | none => simp only [lowStep, Option.some.injEq] at hx; rw [← hx]; exact hv
+  | some b =>
+    have hb' := hb b rfl
+    simp only [lowStep] at hx
+    by_cases h1 : isAny v = true
+    · simp [h1] at hx; rw [← hx]; exact hb'
+    · have h1' : isAny v = false := by simpa using h1
+      by_cases h2 : le b v = true
+      · simp [h1', h2] at hx; rw [← hx]; exact hv
+      · have h2' : le b v = false := by simpa using h2
+        by_cases h3 : le v b = true
+        · simp [h1', h2', h3] at hx; rw [← hx]; exact hb'
+        · have h3' : le v b = false := by simpa using h3
+          simp [h1', h2', h3'] at hx
+          rw [← hx]
+          have hbn : isAny b = false := by
+            cases hba : isAny b with
+            | false => rfl
+            | true => rw [isAny_iff.mp hba, hA.le_any_left] at h2'; exact absurd h2' (by simp)
+          exact Or.inr (hcl _ _ (hb'.of_notAny hbn) (hv.of_notAny h1'))
+
+theorem upStep_AS (hA : AnyLaws le) (hcl : ∀ a b, S a → S b → S (join a b)) {top : Option Ty} {v : Ty}
+    (ht : ∀ t, top = some t → AS S t) (hv : AS S v) :
+    ∀ x, upStep le join top v = some x → AS S x := by
+  intro x hx
+  cases top with
+  | none => simp only [upStep, Option.some.injEq] at hx; rw [← hx]; exact hv
+  | some t =>
+    have ht' := ht t rfl
+    simp only [upStep] at hx
+    by_cases h2 : le v t = true
+    · simp [h2] at hx; rw [← hx]; exact hv
+    · have h2' : le v t = false := by simpa using h2
+      by_cases h3 : le t v = true
+      · simp [h2', h3] at hx; rw [← hx]; exact ht'
+      · have h3' : le t v = false := by simpa using h3
+        simp [h2', h3'] at hx
+        rw [← hx]
+        have hvn : isAny v = false := by
+          cases hva : isAny v with
+          | false => rfl
+          | true => rw [isAny_iff.mp hva, hA.le_any_left] at h2'; exact absurd h2' (by simp)
+        have htn : isAny t = false := by
+          cases hta : isAny t with
+          | false => rfl
+          | true => rw [isAny_iff.mp hta, hA.le_any_right] at h2'; exact absurd h2' (by simp)
+        exact Or.inr (hcl _ _ (ht'.of_notAny htn) (hv.of_notAny hvn))
+
+theorem trail_AS (hA : AnyLaws le) (hcl : ∀ a b, S a → S b → S (join a b)) (bs : List Bound) :
+    ∀ st : St, (∀ b, st.bottom = some b → AS S b) → (∀ t, st.top = some t → AS S t) →
+      (∀ v ∈ lowers bs, AS S v) → (∀ v ∈ uppers bs, AS S v) →
+      ∀ x ∈ trail le join st bs, AS S x := by
+  induction bs with
+  | nil => intro st _ _ _ _ x hx; simp [trail] at hx
+  | cons b bs ih =>
+    intro st hb ht hl hu x hx
+    have hstep : (∀ b', (step le join st b).bottom = some b' → AS S b') ∧
+        (∀ t', (step le join st b).top = some t' → AS S t') := by
+      cases b with
+      | lower v =>
+        rw [step_lower]
+        exact ⟨lowStep_AS hA hcl hb (hl v (by simp [lowers])), ht⟩
+      | upper v =>
+        rw [step_upper]
+        exact ⟨hb, upStep_AS hA hcl ht (hu v (by simp [uppers]))⟩
+      | oneOf cs => exact ⟨by simpa [step] using hb, by simpa [step] using ht⟩
+      | or bss => exact ⟨by simpa [step] using hb, by simpa [step] using ht⟩
+    simp only [trail, List.mem_append, Option.mem_toList] at hx
+    rcases hx with (hx | hx) | hx
+    · exact hstep.1 x hx
+    · exact hstep.2 x hx
+    · refine ih _ hstep.1 hstep.2 (fun v hv => hl v ?_) (fun v hv => hu v ?_) x hx
+      · cases b <;> simp [lowers, hv]
+      · cases b <;> simp [uppers, hv]
+
+/-- bound values in a carrier closed under `join` (or `Any`) ⇒ everything the solver meets is -/
+theorem reach_AS_of_closed (hA : AnyLaws le) (hcl : ∀ a b, S a → S b → S (join a b)) (bs : List Bound)
+    (hvals : ∀ v ∈ boundVals bs, AS S v) : ∀ v ∈ reach le join bs, AS S v := by
+  intro v hv
+  simp only [reach, List.mem_append] at hv
+  rcases hv with hv | hv
+  · exact hvals v hv
+  · exact trail_AS hA hcl bs {} (by simp) (by simp)
+      (fun w hw => hvals w (by simp [boundVals, hw])) (fun w hw => hvals w (by simp [boundVals, hw])) v hv
+
+end Closed
+
+/-! ### 6c. the de-duplication keeps a subsequence -/
+
+theorem dedupB_sublist (bs : List Bound) : ∀ acc : List Bound, (dedupB acc bs).Sublist (acc ++ bs) := by
+  induction bs with
+  | nil => intro acc; simp [dedupB]
+  | cons b bs ih =>
+    intro acc
+    unfold dedupB
+    split
+    · exact (ih acc).trans (List.Sublist.append_left (List.sublist_cons_self b bs) acc)
+    · have := ih (acc ++ [b])
+      simpa using this
+
+/-! ### 7. `Any` and the shared assignability model -/
+
+theorem ca_any_right (tbl : ClassTable) : ∀ a : Ty, ca tbl false a .any = true
+  | .annotated t => by
+    have := ca_any_right tbl t
+    simp [ca, this]
+  | .any => by simp [ca]
+  | .known _ => by simp [ca]
+  | .typed _ => by simp [ca]
+  | .newtype _ _ => by simp [ca]
+  | .generic _ _ => by simp [ca]
+  | .seq _ _ => by simp [ca]
+  | .many _ => by simp [ca]
+  | .union _ => by simp [ca]
+  | .subclass _ => by simp [ca]
+  | .tvar _ => by simp [ca]
+
+theorem anyLaws_ca (tbl : ClassTable) : AnyLaws (leCa tbl) :=
+  ⟨fun b => ca_any_right tbl b, fun a => by unfold leCa ca; rfl⟩
+
 end Pya.C15
